@@ -1852,8 +1852,16 @@ class rx:
         return self._apply_operator(operator.add, other)
     def __and__(self, other):
         return self._apply_operator(operator.and_, other)
-    def __contains_(self, other):
-        return self._apply_operator(operator.contains, other)
+    def __contains__(self, other):
+        # `x in <rx_obj>` coerces whatever __contains__ returns to bool, so it can
+        # never be reactive; without this method Python falls back to __iter__ +
+        # __eq__ + __bool__ and silently answers True for every non-empty value.
+        raise TypeError(
+            '`x in <rx_obj>` is not supported. Use '
+            '`<rx_obj>.rx.pipe(operator.contains, x)` to obtain the membership test '
+            'as a reactive expression, or `x in <rx_obj>.rx.value` to test the '
+            'current value.'
+        )
     def __divmod__(self, other):
         return self._apply_operator(divmod, other)
     def __eq__(self, other):
